@@ -190,6 +190,22 @@ func evRuns(rs [][]int) []int {
 	return out
 }
 
+// evRunHeads: what a consumer is handed that takes only the first j items of each run and then
+// moves on (the end of a run is seen only when the run has fewer than j items).
+func evRunHeads(rs [][]int, j int) []int {
+	var out []int
+	for _, r := range rs {
+		out = append(out, evNewRun)
+		if len(r) < j {
+			out = append(out, r...)
+			out = append(out, evEndRun)
+		} else {
+			out = append(out, r[:j]...)
+		}
+	}
+	return out
+}
+
 func isPrefix(a, b []int) bool {
 	if len(a) > len(b) {
 		return false
